@@ -29,4 +29,4 @@ def classes(m, v):
     return sorted(m.features & {'detached', 'duplicating-macro', 'removed-env', 'skip-region', 'usermacro', 'glossary', 'table', 'list', 'theorem'})
 
 
-run_shard, replay = docprop.make(ID, judge, nontrivial, classes, quick=40000, thorough=1000000)
+run_shard, replay = docprop.make(ID, judge, nontrivial, classes, quick=40000, thorough=333333)
